@@ -240,7 +240,12 @@ def modelAcc (bs : Bytes) (ws : List String) : Option String :=
   | "seq_ctx" => some <| onSeq fun s => fmtRes (seqCtx s (natArg ws)) fun e => toString e.length
   | "scan_ctx" => some <| onSeq fun s => fmtRes (scanCtx s (natArg ws)) fun (e, s') => s!"{e.length}:{s'.length}"
   | "seq_raw_value" => some <| onSeq fun s => fmtRes (rawValue s) hex
-  | "fmt" => none
+  | "fmt" => some <| match fmtOf bs with
+      | .ok _ => "ok" | .err _ => "e:fmt" | .panic .fuel => "hang" | .panic _ => "panic"
+  | "seq_fmt" => some <| onSeq fun s => match seqFmtOf s with
+      | .ok _ => "ok" | .err _ => "e:fmt" | .panic .fuel => "hang" | .panic _ => "panic"
+  | "tlv" => some <| fmtRes (tlvOf bs) fun (t, v) => tagTok t ++ "=" ++ tvalTok v
+  | "total_len" => some <| fmtRes (totalLen bs) toString
   | _ => none
 
 /-- specification of the property on one accessor output -/
@@ -252,7 +257,15 @@ def oracleAcc (st : St) (ws : List String) (out : String) : Option String :=
     let name := ws.getD 0 ""
     match okPayload out with
     | some p =>
-      if name = "container_len" then
+      if name = "fmt_stack" then
+        -- `Display` / `Debug` recurse once per nesting level: the stack they need on a message-sized input must
+        -- fit a small task stack (64 KiB is already generous for the embedded targets of rs-matter)
+        match p.toNat? with
+        | some n => if bs.length ≤ 1280 ∧ n > 65536 then
+              some s!"formatting (Display / Debug) an element of {bs.length} bytes took {n} bytes of stack: one recursion level per nesting level, a stack overflow (abort) on a smaller stack"
+            else none
+        | none => none
+      else if name = "container_len" ∨ name = "total_len" then
         match p.toNat? with
         | some n => if n ≤ bs.length then none else some s!"reported element length {n} exceeds the input length {bs.length}"
         | none => none
@@ -319,6 +332,14 @@ def step (st : St) (line : String) : St × String :=
         match parseTree rest with
         | none => (st, "BAD tree")
         | some v =>
+          if !v.lenFits then
+            -- a string that does not fit the length field of its element type: the value cannot be
+            -- represented; a writer that answers `Ok` has emitted a truncated length field (corrupt stream)
+            let m := if name = "write" then fmtRes (write v) hex else "ok:" ++ hex (encode v)
+            if (okPayload out).isSome then
+              (st, s!"ORA {name}: a string longer than its length field can express was written with a truncated length instead of refused")
+            else if m = out then (st, "ok") else (st, s!"DIS {m.take 200}")
+          else
           let m := "ok:" ++ hex (encode v)
           let st' := match okPayload out with
             | some h => { st with written := (h, treeStr v) :: st.written }
